@@ -1249,8 +1249,10 @@ impl ByteCodeGenerator {
                 let t = self.find(&time);
 
                 let dst = self.vregister.add_newvalue(&dst);
+                let size_idx = u8::try_from(funcproto.delay_sizes.len())
+                    .expect("more than 256 delays in one function");
                 funcproto.delay_sizes.push(max);
-                Some(VmInstruction::Delay(dst, s, t))
+                Some(VmInstruction::Delay(dst, s, t, size_idx))
             }
             mir::Instruction::Mem(src) => {
                 let s = self.find(&src);
